@@ -36,7 +36,9 @@ func (p *c11) Init(tier string, seed int64) {
 	p.nRand = p.pick(6000, 200000)
 }
 
-func (p *c11) N() int { return p.nEnum + p.nUnknown + p.nRec + p.nMany + p.nRand + c11nNames }
+func (p *c11) N() int {
+	return p.nEnum + p.nUnknown + p.nRec + p.nMany + p.nRand + c11nNames + len(c11Special)
+}
 
 // buildRec: terminating recursion. Every level reads its own parameters again after the inner call has
 // returned, so an activation record shared between the calls of one macro shows.
@@ -440,7 +442,28 @@ func c11randArgs(r *rand.Rand, np int) []gen.Expr {
 	return args
 }
 
+// c11Special: an import alias is a variable: it is assigned where a set statement at that point would assign it -
+// also when the tag stands in a macro or a loop whose parameter or variable has the alias's name.
+var c11Special = []func() []gen.Node{
+	func() []gen.Node {
+		call := func(x string, a gen.Expr) gen.Node { return pr(&gen.EMethod{X: nm(x), Name: "m", Args: []gen.Expr{a}}) }
+		inMacro := &gen.NMacro{Name: "host", Params: []string{"L", "q"}, Body: []gen.Node{tx("(host:"), pr(nm("q")), &gen.NImport{Tpl: str("lib"), Alias: "L"}, call("L", str("in-macro")), tx(")")}}
+		return []gen.Node{inMacro, pr(&gen.EMethod{X: nm("_self"), Name: "host", Args: []gen.Expr{str("shadowed"), str("Q")}}), tx("|"),
+			&gen.NFor{Val: "L", Seq: &gen.EArr{Els: []gen.Expr{num(1), num(2)}}, Body: []gen.Node{pr(nm("L")), &gen.NImport{Tpl: str("lib"), Alias: "L"}, call("L", str("in-loop")), tx(";")}}, tx("|"),
+			&gen.NSet{Name: "K", X: num(5)}, &gen.NFor{Val: "i", Seq: &gen.EArr{Els: []gen.Expr{num(1)}}, Body: []gen.Node{&gen.NImport{Tpl: str("lib"), Alias: "K"}, call("K", str("k-in-loop"))}}, call("K", str("k-after-loop")), tx("|"),
+			&gen.NIf{Conds: []gen.Expr{&gen.EBool{V: true}}, Bodies: [][]gen.Node{{&gen.NImport{Tpl: str("lib"), Alias: "J"}}}}, call("J", str("after-if"))}
+	},
+}
+
+func (p *c11) buildSpecial(j int) (*Program, string) {
+	ts := map[string]*gen.Template{"main": tpl("main", c11Special[j]()...), "lib": tpl("lib", c11macro("m", 1))}
+	return &Program{Templates: ts, Main: "main", Ctx: map[string]interface{}{}}, fmt.Sprintf("special/%d", j)
+}
+
 func (p *c11) build(i int) (*Program, string) {
+	if i >= p.nEnum+p.nUnknown+p.nRec+p.nMany+p.nRand+c11nNames {
+		return p.buildSpecial(i - (p.nEnum + p.nUnknown + p.nRec + p.nMany + p.nRand + c11nNames))
+	}
 	if i >= p.nEnum+p.nUnknown+p.nRec+p.nMany+p.nRand {
 		return p.buildNames(i - (p.nEnum + p.nUnknown + p.nRec + p.nMany + p.nRand))
 	}
